@@ -26,6 +26,8 @@ def check(prog, run):
     run.rule("R1", "take-all: stores to the sample queue are exactly {push in write_video, mem::take in flush_segment}; the segment builder receives the taken vector")
     run.rule("R2", "empty flush is a no-op: the None exit of flush_segment is store-free")
     run.rule("R3", "numbering: counter initialised to 1; only other store is counter+1 after the builder call; builder receives the pre-increment value")
+    run.rule("R4", "data offset: trun.data_offset == len(moof) + 8 == static offset of the first sample byte relative to the start of moof; len(moof) does not depend on the data_offset value")
+    run.rule("R5", "same samples, same order: trun records and mdat payload iterate the same slice in order; record size field = len(data) of its own element; mdat = exactly the payloads")
     run.rule("R6", "rejection: write_video's only error exit is guarded by `dts < last_dts` and is store-free")
     run.rule("R7", "queries are pure (&self, no stores); init_segment stores only its cache field and returns the cached clone when present")
     try:
@@ -159,6 +161,8 @@ def check(prog, run):
         run.check(good, "R6", "guard dts<last_dts", "error exit guarded by %s" % desc,
                   "the rejection is not guarded by `dts < last accepted dts` (found: %s) — the property demands rejection iff lower" % (desc or "no comparison"), mir.loc_of(e["node"]))
     # ok path stores: last_dts := Some(dts) and push
+    # ---- R4 / R5 (layout)
+    layout_rules(prog, run)
     # ---- R7
     for qf in QUERIES:
         b = u.bodies[qf]
@@ -168,3 +172,51 @@ def check(prog, run):
     st_init = {s[1][0] for s in cx.st.sum[INIT] if s[0] == ("arg", 1) and s[1]}
     run.check(len(st_init) == 1, "R7", "init-stores-cache-only", "init_segment stores only `%s`" % sorted(st_init),
               "init_segment stores into %s" % sorted(st_init), mir.loc_of(u.bodies[INIT]))
+
+
+def layout_rules(prog, run):
+    from .. import boxcheck as B
+    from .. import filemodel as FMD
+    from .. import layout as L
+    from . import c01, c11
+    u = prog.lib
+    try:
+        it, pn, segs = c11.segment_model(u)
+    except Exception as e:
+        run.bad("R4", "segment unanalysable", "cannot derive the media segment production (fail closed): %s" % e)
+        return
+    S = ("param", pn[0])
+    top = FMD.top_structure(segs)
+    moof = next((t[2] for t in top if t[0] == "box" and t[1] == b"moof"), None)
+    body = next((t[1] for t in top if t[0] == "body"), None)
+    if moof is None or body is None:
+        run.bad("R4", "segment shape", "media segment is not moof + mdat")
+        return
+    trun = c11.find(segs, b"trun")[0]
+    view, rest = B.byte_view(trun[2])
+    vf = B.field_value(view, 0, 4)
+    flags = int.from_bytes(vf[1][1:], "big") if vf[0] == "const" else 0
+    off = B.field_value(view, 8, 4) if flags & 1 else None
+    ok, detail = False, "data-offset-present flag not set"
+    if off and off[0] == "expr":
+        e = off[1][1]
+        detail = L.show(e)[:120]
+        # (len(first-pass moof) as u32) + 8
+        if e[0] == "bin" and e[1] == "Add" and e[3] == ("lit", 8):
+            x = e[2]
+            while x[0] == "cast":
+                x = x[2]
+            if x[0] == "len" and x[1][0] == "bufval":
+                w1 = c01._strip_lin(L.width(L.norm_segs(c01._thaw(x[1][1]))))
+                w2 = c01._strip_lin(L.width([moof]))
+                ok = w1 == w2
+                detail = "len(first-pass moof) + 8, first-pass width %s == final moof width %s" % (w1, w2)
+    run.check(ok, "R4", "data-offset", detail, "trun.data_offset is not `len(moof) + 8` with len(moof) independent of the offset value: %s" % detail)
+    # static position of the first payload byte relative to moof start = width(moof) + 8 (mdat header): by construction of top_structure
+    shape = [t[0] for t in top]
+    run.check(shape == ["box", "mdat_hdr", "mdat_tag", "body"], "R4", "first-byte-position", "moof, 8-byte mdat header, payload", "segment layout is %s" % shape)
+    reps = [s_ for s_ in trun[2] if s_[0] == "rep"]
+    good = len(reps) == 1 and reps[0][1] == S and len(body) == 1 and body[0][0] == "rep" and body[0][1] == S and \
+        body[0][3] == [("blob", ("field", ("elem", S, body[0][2]), "data"))]
+    run.check(good, "R5", "same-slice-same-order", "trun records and mdat payload both iterate `samples` in order; payload = sample.data",
+              "trun and mdat do not iterate the same sample slice in order (trun over %s, mdat: %s)" % (L.show(reps[0][1]) if reps else "?", ", ".join(L.show(s_) for s_ in body)[:160]))
